@@ -167,13 +167,18 @@ func (g *vPwWorld) step(a map[string]interface{}) map[string]interface{} {
 		}
 	case "dboutage":
 		g.prim.mu.Lock()
-		g.prim.delayQ = 250 * time.Millisecond
+		if vStr(a, "mode") == "refuse" {
+			g.prim.refuse = true // the store is down and says so at once: nothing can be read or written
+		} else {
+			g.prim.delayQ = 250 * time.Millisecond
+		}
 		g.prim.mu.Unlock()
 		st.remoteDBQueryTimeout = 40 * time.Millisecond
 	case "dbrecover":
 		time.Sleep(300 * time.Millisecond)
 		g.prim.mu.Lock()
 		g.prim.delayQ = 0
+		g.prim.refuse = false
 		g.prim.mu.Unlock()
 		st.remoteDBQueryTimeout = 2 * time.Second
 	case "change":
